@@ -216,6 +216,7 @@ class UnitBuilder:
         body = '\n'.join(outl)
         if kind == 'struct' and re.match(r'struct\s+\w+(<[^>]*>)?\s*\(', body):
             body = re.sub(r'\(\s*', '(pub ', body, count=1)
+            body = re.sub(r',\s*(?=[A-Za-z&])', ', pub ', body)
         derive = opts.get('derive')
         pre = ''
         if derive:
